@@ -108,12 +108,12 @@ class Check:
         out = []
         for (name, q) in poses:
             for dip in dips:
-                for pert in ('clean', 'acc', 'mag'):
+                for pert in ('clean', 'acc', 'acc2', 'acc3', 'mag', 'mag2'):
                     world = {'dt': 0.01, 'q0': [float(x) for x in q], 'segments': [{'t': 'pose', 'q': [float(x) for x in q], 'len': 2, 'name': name}],
                              'g': 9.81, 'mscale': 50.0, 'dip': dip, 'noise': {'acc': 0.0, 'mag': 0.0, 'gyr': 0.0}, 'noise_seed': 1, 'gyr_floor': 0.0, 'faults': []}
                     if pert != 'clean':
-                        vec = [3.1, -7.7, 4.9] if pert == 'acc' else [21.0, 13.0, -37.0]
-                        world['faults'] = [{'kind': 'glitch', 'sensor': pert, 'start': 1, 'len': 1, 'vec': vec}]
+                        vec = {'acc': [3.1, -7.7, 4.9], 'acc2': [-6.0, 2.5, -7.2], 'acc3': [0.4, 9.1, 3.3], 'mag': [21.0, 13.0, -37.0], 'mag2': [-30.0, -8.0, 41.0]}[pert]
+                        world['faults'] = [{'kind': 'glitch', 'sensor': pert[:3], 'start': 1, 'len': 1, 'vec': vec}]
                     out.append({'world': world, 'consumers': cons, 'sched_seed': 1, 'lag_bound': 1, 'rng_seed': 1})
         # slow loggers: every recursive filter on a fast constant turn sampled at 0.1 / 0.25 / 1 s (seed independent)
         rec = [{'kind': k, 'params': dict(v)} for k, v in (
